@@ -1,6 +1,6 @@
 """C19 — going idle triggers clean-up; end-of-day never runs over open transactions."""
 from mirlite import switch_target, callee, ty_str
-from client import Fn, FEIG, STREAM, HM, NEXT, variant_switches, follow, is_call, mentions_path
+from client import emptiness_switches, Fn, FEIG, STREAM, HM, NEXT, variant_switches, follow, is_call, mentions_path
 from expr import show, walk, strip_ref
 from rules_c07 import field_of_agg
 
@@ -24,7 +24,9 @@ def run(ctx, chk):
     for name in ("commit_transaction", "cancel_transaction"):
         f = Fn(crate, name)
         eod = f.calls(lambda n, t: n == FEIG + "end_of_day")
-        tests = f.bool_switches(lambda e: is_call(e, "HashMap::<K, V, S, A>::is_empty") and mentions_path(e, "self", ("transactions",)))
+        # `is_empty()` or any equivalent comparison of `len()` with 0 / 1
+        tests = emptiness_switches(f, lambda x: mentions_path(x, "self", ("transactions",)),
+                                   len_suffixes=("HashMap::<K, V, S, A>::len",), empty_suffixes=("HashMap::<K, V, S, A>::is_empty",))
         if not chk.require(len(tests) == 1, "C19/idle-test", name,
                            "expected one is_empty() test of the token map, found %d" % len(tests), "", f.sp()):
             continue
@@ -123,10 +125,9 @@ def run(ctx, chk):
                     chk.require(any(y[0] == "call" and y[1] == "core::default::Default::default" for y in walk(v)),
                                 "C19/query-fields", "get_pending." + nm, "query field %s is set to %s" % (nm, show(v)[:60]),
                                 "default", f.sp(st[0][0]), nontrivial=False)
-        # the sentinel comparison
-        cmp_ = f.bool_switches(lambda e: e[0] == "bin" and e[1] == "Eq" and (e[2] == ("const", 0xFFFF) or e[3] == ("const", 0xFFFF)))
-        chk.require(len(cmp_) == 1, "C19/sentinel", "get_pending",
-                    "the 'nothing pending' sentinel FFFF is not tested exactly once (found %d)" % len(cmp_), "== 0xFFFF", f.sp())
+        # the answer: per path through the abort arm (symbolic evaluation), "nothing pending" is reported exactly
+        # when the terminal sent no receipt number or the sentinel FFFF, otherwise the reported number is handed on
+        pending_answer(chk, f, zvt)
     # ---- who may call
     callers_eod_stream = set()
     callers_eod = set()
@@ -174,3 +175,72 @@ def completion_point(f, name):
                 any(x[0] == "call" and x[1] == "core::ops::try_trait::Try::branch" for x in walk(e)):
             return switch_target(t, 0)
     return None
+
+
+def pending_answer(chk, f, zvt):
+    import pathsym as ps
+    arm = None
+    for (bb, enum, targets, else_t, rest, pexpr) in variant_switches(f, zvt.adts):
+        if "PartialReversalAbort" in targets:
+            arm = targets["PartialReversalAbort"]
+    if not chk.require(arm is not None, "C19/sentinel", "get_pending", "abort arm (the answer of the query) not found", "", f.sp()):
+        return
+    pe = ps.PathEval(f.b)
+    polls = [bb for bb, t in f.b.calls() if callee(t) == NEXT]
+    rets = [i for i in f.reach if f.b.blocks[i]["term"]["t"] == "return"]
+
+    def on_receipt(e):
+        return any(x[0] == "field" and x[2] == "receipt_no" for x in ps.walk(e))
+    n = 0
+    for r in rets:
+        for path in ps.simple_paths(f.b, arm, r, avoid=polls):
+            env, conds = pe.run(path)
+            ret = env.get(0)
+            if ret is None:
+                continue
+            ret = ps.norm(ret)
+            if not (ret[0] == "agg" and str(ret[1]).endswith("Result::Ok")):
+                continue                    # error exits are C20's business
+            n += 1
+            present = None      # True: Some, False: None
+            is_ffff = None      # True / False / "other"
+            for cbb, ce, taken, listed in conds:
+                c = ps.norm(ce)
+                if c[0] == "discr" and on_receipt(c[1]):
+                    # Some / None of the optional receipt number (discriminant 1 / 0)
+                    if taken == 0:
+                        present = False
+                    elif taken == 1:
+                        present = True
+                    else:                      # fall-through edge: the value that is not listed
+                        present = (1 not in listed) if 0 in listed else False
+                    continue
+                if c[0] == "bin" and c[1] in ("Eq", "Ne", "Lt", "Le", "Gt", "Ge") and (on_receipt(c[2]) or on_receipt(c[3])):
+                    k = c[3] if on_receipt(c[2]) else c[2]
+                    truth = (taken == "else") if listed == [0] else (taken != 0)
+                    if c[1] in ("Eq", "Ne") and k == ("const", 0xFFFF):
+                        is_ffff = truth if c[1] == "Eq" else not truth
+                    else:
+                        is_ffff = "other"
+                    continue
+                if on_receipt(c) and c[0] == "field" and listed and all(isinstance(v, int) for v in listed) and c[0] != "discr":
+                    # `match receipt { 0xFFFF => .., r => .. }`: a switch on the number itself
+                    if listed == [0xFFFF]:
+                        is_ffff = (taken == 0xFFFF)
+                    else:
+                        is_ffff = "other"
+            reports = on_receipt(ret)
+            inst = "path .." + "-".join(str(x) for x in path[-3:])
+            if present is False or is_ffff is True:
+                chk.require(not reports, "C19/sentinel", inst,
+                            "'nothing pending' (no receipt number / FFFF) is answered with a receipt to reverse: %s" % ps.show(ret)[:100],
+                            "empty answer", f.sp(path[-1]))
+            elif is_ffff is False:
+                chk.require(reports, "C19/sentinel", inst,
+                            "a dangling pre-authorisation reported by the terminal is dropped (empty answer although the receipt number is "
+                            "not FFFF)", "receipt handed on", f.sp(path[-1]))
+            else:
+                chk.fail("C19/sentinel", inst,
+                         "the answer does not distinguish the 'nothing pending' sentinel FFFF from a real receipt number by an "
+                         "equality test (tests on this path: present=%s, sentinel=%s)" % (present, is_ffff), f.sp(path[-1]))
+    chk.floor("get_pending answer paths", n, 3)
